@@ -1,6 +1,7 @@
 (* C16 — File.read / write_file / File.write / ChangeContents.do over a byte string.
 
    File.read():           file_data_to_unicode(read_bytes()) ; remembers self.newlines
+                          [since fe48e43: unless the text has no line break and self.newlines is already set]
    _decode_data:          encoding = read_str_coding(data) or "utf-8"; try data.decode(encoding)
                           except (UnicodeError, LookupError): data.decode("latin1")
    write_file(res, text): [since f64a998: if res.newlines is None and res.exists(): res.read()]
@@ -12,8 +13,9 @@
                           write_file(self.resource, self.new_contents)
 
    The model is parametrised by the VERSION of rope: [repaired] is the code in /repo now and is what the
-   theorems and the correspondence run are about; [legacy] is the code before the three C16 fixes (f64a998,
-   c286168, 2fa467c) and is only used by the `_refuted` lemmas that document the fixed defects.
+   theorems and the correspondence run are about; [legacy] is the code before the first three C16 fixes (f64a998,
+   c286168, 2fa467c), [before_fe48e43] the code before the fourth; both are only used by the `_refuted` lemmas that
+   document the fixed defects.
    [lookup] stands for codecs.lookup (None = LookupError).  Definitions only. *)
 From Coq Require Import List NArith Bool.
 From RopeVerif.Lib Require Import Text.
@@ -24,14 +26,22 @@ Local Open Scope N_scope.
 Record version := {
   v_cookie_bytes : list N -> option text;     (* read_str_coding(bytes) *)
   v_cookie_text : text -> tcookie;            (* read_str_coding(str), may raise UnicodeEncodeError in legacy *)
-  v_detect : bool                             (* write_file reads the file when File.newlines is None *)
+  v_detect : bool;                            (* write_file reads the file when File.newlines is None *)
+  v_keep : bool                               (* File.read keeps a remembered convention when the text has no line break *)
 }.
 
 Definition repaired : version :=
-  {| v_cookie_bytes := cookie_of; v_cookie_text := fun t => tcookie_of (cookie_of t); v_detect := true |}.
+  {| v_cookie_bytes := cookie_of; v_cookie_text := fun t => tcookie_of (cookie_of t); v_detect := true;
+     v_keep := true |}.
+
+(* the code between the first three C16 fixes and fe48e43 (only used to document the defect that commit fixed) *)
+Definition before_fe48e43 : version :=
+  {| v_cookie_bytes := cookie_of; v_cookie_text := fun t => tcookie_of (cookie_of t); v_detect := true;
+     v_keep := false |}.
 
 Definition legacy : version :=
-  {| v_cookie_bytes := legacy_cookie_bytes; v_cookie_text := legacy_cookie_text; v_detect := false |}.
+  {| v_cookie_bytes := legacy_cookie_bytes; v_cookie_text := legacy_cookie_text; v_detect := false;
+     v_keep := false |}.
 
 Inductive wres := WBytes (b : list N) | WSkipped | WLookupError | WEncodeError.
 
@@ -83,8 +93,8 @@ Section Model.
     let newlines' := match old with None => Some (snd (from_bytes b)) | Some _ => newlines end in
     write_file b newlines' new.
 
-  (* File.write(contents) on a File object (its first action is read(), so the previous value of newlines is
-     irrelevant) *)
+  (* File.write(contents) on a File object that has not seen another state of the file (its first action is
+     read(); Session.v has the general case) *)
   Definition file_write (b : list N) (contents : text) : wres :=
     if text_eqb contents (fst (from_bytes b)) then WSkipped
     else change_do b (Some (snd (from_bytes b))) contents None.
